@@ -13,6 +13,11 @@ def cases(tier, seed):
                 yield dict(seed=seed * 10 + s, max_depth=depth, algo=algo, labels=[0, 1] if s % 2 == 0 else ["no", "yes"], base="logreg")
     for depth in (2, 3):
         yield dict(seed=1, max_depth=depth, algo="none", labels=[3, 7], base="stump")
+    # single-precision features: thresholds placed on a training row's own probability ('intercept_sort_always') are exact ties in float32,
+    # predict_proba and decision_path have to break them the same way
+    for s in range(3 if tier == "quick" else 8):
+        for algo in ("intercept_sort_always", "auto"):
+            yield dict(seed=seed * 10 + s, max_depth=3, algo=algo, labels=[0, 1], base="logreg", dtype="float32")
 
 
 def nodes(t):
@@ -36,11 +41,13 @@ def check(c):
         X = rs.randn(80, 2)
         yb = ((X[:, 0] ** 2 + X[:, 1] > 0.3)).astype(int)
         est = LogisticRegression()
+    if c.get("dtype"):
+        X = X.astype(c["dtype"])
     y = numpy.array(c["labels"], dtype=object if isinstance(c["labels"][0], str) else None)[yb]
     m = DecisionTreeLogisticRegression(estimator=est, max_depth=c["max_depth"], fit_improve_algo=c["algo"], min_samples_leaf=2)
     if m.fit(X, y) is not m:
         return dict(**{"class": "fit-returns"}, what="fit does not return self")
-    Q = numpy.vstack([X, rs.randn(30, 2) * 2]) if c["base"] != "stump" else X
+    Q = numpy.vstack([X, (rs.randn(30, 2) * 2).astype(X.dtype)]) if c["base"] != "stump" else X
     P = m.predict_proba(Q)
     if P.shape != (len(Q), 2) or not numpy.allclose(P.sum(axis=1), 1, atol=1e-9):
         return dict(**{"class": "proba-sum"}, what="rows of predict_proba do not sum to one")
@@ -57,6 +64,7 @@ def check(c):
     if list(m.get_leaves_index()) != leaves:
         return dict(**{"class": "leaves-index"}, what="get_leaves_index %r, terminal nodes %r" % (list(m.get_leaves_index()), leaves))
     path = m.decision_path(Q).toarray()
+    tol = 1e-9 if Q.dtype == numpy.float64 else 2e-6       # batch vs single-row evaluation of a member classifier rounds differently
     byindex = {n.index: n for n in allnodes}
     for r in range(len(Q)):
         node, expected = m.tree_, []
@@ -64,7 +72,7 @@ def check(c):
             expected.append(node.index)
             p = node.estimator.predict_proba(Q[r:r + 1])
             nxt = node.above if p[0, 1] > node.threshold else node.below
-            if abs(p[0, 1] - node.threshold) <= 1e-9:
+            if abs(p[0, 1] - node.threshold) <= tol:
                 # tie within rounding: the code evaluates the member classifier on a batch, this harness on one row, and BLAS
                 # may round the two differently (thresholds of 'intercept_sort_always' ARE training probabilities): either side
                 # is accepted - the side the code took is read off the marks (a missing child on that side ends the path)
@@ -79,7 +87,7 @@ def check(c):
         marked = sorted(numpy.where(path[r] != 0)[0].tolist())
         if marked != sorted(expected):
             return dict(**{"class": "decision-path"}, what="row %d: marked nodes %r, path %r" % (r, marked, expected))
-        if not numpy.allclose(P[r], p[0], rtol=0, atol=1e-9):
+        if not numpy.allclose(P[r], p[0], rtol=0, atol=tol):
             return dict(**{"class": "proba-vs-path"}, what="row %d: predict_proba is not the classifier ending its path (node %d)" % (r, node.index))
     return None
 
